@@ -81,6 +81,7 @@ def mk_deriver(name, ident):
 def mk_pred(name, ident):
     class Pred:
         _c18_id = ident
+        _c18_name = name
 
         def __init__(self, val, info):
             self.val = val
